@@ -77,10 +77,11 @@ type backlogInfo struct {
 	victimRet    atomic.Value // string
 	victimCmd    string
 	victimReturn atomic.Bool
+	early        atomic.Bool // the victim's Receive ended before its consumer stalled
 }
 
 var (
-	bkUni = map[string][]string{"": {"q0", "q1", "q2"}, "p": {"q*", "?1", "q[02]"}, "s": {"shq0", "shq1"}}
+	bkUni = map[string][]string{"": {"q0", "q1", "q2"}, "p": {"q*", "?1", "q?"}, "s": {"shq0", "shq1"}}
 	// what the publishers of these histories pick from
 	bkTargets = []string{"q0", "q1", "q2", "shq0", "shq1"}
 )
@@ -106,6 +107,8 @@ func hits(kind string, chans []string, target string) int {
 	}
 	return n
 }
+
+var dbgBacklog = false
 
 var (
 	dumpMu  sync.Mutex
@@ -316,10 +319,19 @@ func runBacklog(run *mon.Run, bc backlogCase, info *backlogInfo) (w *world) {
 			}
 		}
 	}()
+	early := false
 	if !inflight {
-		<-stalled
+		select {
+		case <-stalled:
+		case <-victim.done: // it must not have ended: evaluate() will say what is wrong with its return value
+			early = true
+		}
 	}
+	info.early.Store(early)
 	pwg.Wait()
+	if dbgBacklog {
+		fmt.Printf("DBG2 #%d victimChans=%v vt=%v need=%d published=%d early=%v\n", bc.idx, victim.chans, vt, need, w.published.Load(), early)
+	}
 	time.Sleep(20 * time.Millisecond) // virtual, NOT a settle point of the oracle: the victim's backlog is still on its way
 	stage("backlogged")
 	parked, where := readerParked()
@@ -542,6 +554,9 @@ func checkBacklog(t *testing.T, run *mon.Run, st *stats) {
 			// the essential one: the context ended while the reader was waiting inside subs.Publish for a slot of a full buffer
 			run.Observe("backlog_context_ended_with_reader_parked_in_publish", 1)
 		}
+		if info.early.Load() {
+			run.Observe("backlog_victim_ended_before_it_stalled", 1)
+		}
 		if info.wireBacklog.Load() >= 17 {
 			run.Observe("backlog_victim_had_17_or_more_undelivered_on_the_wire", 1)
 		}
@@ -550,6 +565,9 @@ func checkBacklog(t *testing.T, run *mon.Run, st *stats) {
 		wit := map[string]any{"history": bc.String(), "stage": stg, "reader_parked_when_context_ended": info.parkedAtEnd.Load(), "reader_at": info.parkedWhere.Load(),
 			"victim_backlog_on_the_wire": info.wireBacklog.Load(), "messages_taken_after_the_end": info.chances.Load(), "victim_returned": info.victimReturn.Load()}
 		resp := "resp2=" + strconv.FormatBool(bc.resp2)
+		if dbgBacklog {
+			fmt.Printf("DBG %v\n", wit)
+		}
 		switch {
 		case pan != nil:
 			run.Violation("panic", "backlog|"+bc.end, merge(wit, map[string]any{"panic": fmt.Sprint(pan)}))
